@@ -28,6 +28,7 @@ revert_prepareread_order C08
 c18_expireall_count_before_lock C18
 c12_sys_limit_ignored C12
 revert_restore_expirations C11
+revert_zero_jittered_ttl C10
 log_guard_wrong_level C04
 c07_nil_value_is_miss C07
 LIST
